@@ -3,6 +3,7 @@ import BM.Sanitize
 import BM.Spec.Oracles
 import BM.Proofs.Rules
 import BM.Proofs.Switches
+import BM.Props.BuilderPins
 /-
   C17: a policy is its rule set.  Proved on the builder model `applyOp`:
   * every switch-like option reflects its most recent setting (including the documented
